@@ -21,7 +21,7 @@ Print Assumptions C18_bytes_max_independent.
 (* a history that rolls over in the middle (max_size 4) meets the hypothesis *)
 Example C18_bytes_inhabited :
   exists r, ref_run KBytes rf_empty
-              [Write [97;10;98]; Seek 1 0; ReadLine None; Write [99;10;100;10]; Seek (-4) 2;
+              [Write [97;10;98]; Seek 1 0; ReadLine None; WriteLines [[99;10];[100;10]]; Seek (-4) 2;
                Next; Len; ListAll; Seek 0 0; IterAll; GetValue] = Some r
             /\ length r = 11%nat.
 Proof. eexists. vm_compute. split; reflexivity. Qed.
@@ -87,7 +87,7 @@ Print Assumptions C18_string_source_chunk_partial.
    followed by len, line calls: the hypotheses are met *)
 Definition c18_text_example : list fop :=
   [Write [97;98;8212;99;10;100]; Seek 0 0; Read (Some 3%nat); Len; Read None;
-   Write [233;128512;10;2048]; Seek 2 0; ReadLine None; Next; ListAll; Seek 0 2; Seek 1 0; IterAll;
+   WriteLines [[233;128512];[];[10;2048]]; Seek 2 0; ReadLine None; Next; ListAll; Seek 0 2; Seek 1 0; IterAll;
    Seek 3 0; ReadLines 0; GetValue].
 
 Example C18_string_inhabited :
